@@ -389,7 +389,7 @@ def run(ctx, rec):
     parammon.attach(rec)
     rng = ctx.rng("c13")
     L = lib()
-    n = 900 if ctx.quick else 5000
+    n = 900 if ctx.quick else 16000
     for k in range(n):
         dict_case(rec, rng, k)
     for k in range(n):
